@@ -95,6 +95,12 @@ def generate(rs: int, tier: str, index: int) -> dict:
         if index < 10:
             return {"property": ID, "run_seed": rs, "tier": tier, "prelude": prelude.gen_prelude(core.Chooser(rs, "prelude")), "steps": [{"id": 0, "k": "range", "start": starts[index], "count": 400}]}
         return {"property": ID, "run_seed": rs, "tier": tier, "prelude": prelude.gen_prelude(core.Chooser(rs, "prelude")), "steps": [{"id": 0, "k": "mulrow", "b": (index - 10) * 20 + ch.below(20), "top": 600}]}
+    if ch.chance(0.03):
+        # powers whose exponent cannot be represented at all (a*n beyond the code point range, up to beyond 2**32): must raise
+        e, n = ch.choice([65536, 65537, 70000, 131072, 1000]), ch.choice([65536, 65537, 70000, 4099])
+        return {"property": ID, "run_seed": rs, "tier": tier, "prelude": prelude.gen_prelude(core.Chooser(rs, "prelude")),
+                "steps": [{"id": 0, "k": "journey", "names": [ch.choice(["q0", "q3"])], "start": {"exponents": [[e]], "coefficients": [ch.choice([1, 2, -3])]},
+                           "stages": [{"stage": "pow", "n": n, "observe": False}]}]}
     nv = ch.between(1, 3)
     names = model.gen_names(ch.sub("n"), nv, nv)
     start = _gen_terms(ch.sub("t"), nv, ch.between(1, 3))
@@ -107,6 +113,10 @@ def generate(rs: int, tier: str, index: int) -> dict:
             st["partner"] = _gen_terms(c.sub("p"), nv, c.between(1, 2), small=c.chance(0.4))
         if kind == "pow":
             st["n"] = c.choice([2, 2, 3])
+            if c.chance(0.25):
+                st["n"] = c.choice([65536, 65537, 70000, 4099])  # only used on single-term bases whose result is unrepresentable
+        if kind == "struct":
+            st["permute"] = c.chance(0.5)  # a multi-field index of the raw view: field order differs from memory order
         if kind == "deriv":
             st["var"] = c.below(nv)
             st["by"] = c.choice(["name", "index", "poly"])
@@ -274,7 +284,11 @@ class Runner:
             env_tag = ""
             try:
                 if kind == "struct":
-                    res = numpoly.polynomial(p.values, names=p.names)
+                    raw = p.values
+                    if st.get("permute") and len(p.keys) > 1:
+                        order = core.Chooser(self.rs, "permute", idx).shuffle([str(k) for k in p.keys])
+                        raw = raw[order]
+                    res = numpoly.polynomial(raw, names=p.names)
                     want = m
                 elif kind == "align":
                     partner = _build(_to_model(st["partner"]), names)
@@ -291,7 +305,13 @@ class Runner:
                             want[key] = want.get(key, 0) + c1 * c2
                     want = {k: v for k, v in want.items() if v}
                 elif kind == "pow":
-                    res = p ** st["n"]
+                    n_pow = st["n"]
+                    if n_pow > 3:
+                        top = max(max(k) for k in m) if m else 0
+                        if len(m) != 1 or nv != 1 or top * n_pow <= MAXEXP or top < 70:
+                            n_pow = 2  # the long chain of multiplications is only affordable when it must fail early
+                    res = p ** n_pow
+                    st = dict(st, n=n_pow)
                     want = {(0,) * nv: 1}
                     for _ in range(st["n"]):
                         nxt: Dict[tuple, int] = {}
@@ -340,7 +360,7 @@ class Runner:
                 if not (core.through_numpoly(exc, NUMPOLY_DIR) or isinstance(exc, (UnicodeError, ValueError, KeyError, TypeError, OverflowError))):
                     raise
                 self.bump("decided")
-                limit = big(m) if kind not in ("mul", "pow") else big(want or m) if want else big(m) * 3
+                limit = big(m) if kind not in ("mul", "pow") else big(want) if want else big(m) * max(3, int(st.get("n", 3)))
                 if limit < SAFE and kind != "text":
                     self.violate("small-exponents-work", kind, sid, f"stage {idx} {kind} on {m}: {type(exc).__name__}: {exc}", {"stage": kind})
                 else:
